@@ -1264,7 +1264,7 @@ package scipipe
 //@   props C02 C09 C11
 //@   modifies fresh, locked
 //@   ensures invalid-path-is-an-error[C09]: (err == nil) <==> validPath(path)
-//@   ensures fresh: err == nil ==> res != nil && fresh(res) && res.path == path && !res.doStream && res.SubStream != nil && fresh(res.SubStream) && res.lock != nil
+//@   ensures fresh: err == nil ==> res != nil && fresh(res) && res.BaseIP != nil && fresh(res.BaseIP) && allocated(res.BaseIP) && res.path == path && !res.doStream && res.SubStream != nil && fresh(res.SubStream) && res.lock != nil
 //@   ensures existing-file-carries-its-record[C02,C11]: err == nil && statOK(fsEpoch, path) ==> res.auditInfo == loadedAudit(path + ".audit.json", fsEpoch)
 //@   ensures no-effects: effCreated == old(effCreated) && effMkdir == old(effMkdir) && effRenamed == old(effRenamed) && effRemoved == old(effRemoved) && effExec == old(effExec)
 
